@@ -107,6 +107,11 @@ def run(pid, tier, replay=None):
     if pid in ("C01", "C02", "C07", "C08", "C13"):
         infer_family(pid, tier, chk)
         registry_family(pid, tier, chk)
+        if pid == "C01":
+            module_family(pid, tier, chk)
+        return chk.finish()
+    if pid in ("C03", "C04", "C10", "C11", "C12", "C18"):
+        module_family(pid, tier, chk)
         return chk.finish()
     if pid == "C09":
         strtypes_family(chk, tier)
@@ -125,7 +130,20 @@ def module_family(pid, tier, chk, n=None):
     quick = tier == "quick"
     n = n or (250 if quick else 4000)
     cases = DM.module_cases_random(chk, n)
+    what = "%d seeded random nested inputs with styled keys x frameworks x layouts x options" % n
+    m = 300 if quick else 5000
+    if pid == "C10":
+        cases += DM.literal_cases(chk, m)
+        what += " + %d literal-set cases (counts 0..17, lengths around 20, quote/backslash/newline/comma/non-BMP content, max 0..16)" % m
+    elif pid == "C11":
+        cases += DM.key_cases(chk, m)
+        what += " + %d wide-alphabet key sets (quotes, backslashes, hyphens, dots, non-ASCII; in and out of the documented domain)" % m
+    elif pid == "C12":
+        cases = cases[: n // 2] + DM.tree_cases(chk, m)
+        what += " + %d tree-shaped inputs rendered in both layouts" % m
+    elif pid == "C18":
+        cases = cases[: n // 2] + DM.converter_cases(chk, m)
+        what += " + %d converter-path cases (pseudo-typed leaves under List/Dict/Optional nesting <= 3, converters on/off)" % m
     traces, inputs = DM.module_traces(pid, chk, cases)
-    chk.rules.append("%d seeded random nested inputs with styled keys x frameworks x layouts x options through the full pipeline; "
-                     "emitted text parsed, executed and introspected" % n)
+    chk.rules.append(what + " through the full pipeline; emitted text parsed, executed and introspected")
     chk.validate("Trace_Module", traces, inputs, shard=16)
